@@ -46,7 +46,7 @@ theorem snvColumns_spec (ref : Seq) (alts : List Seq) :
 /-- at every recovered SNV the REF base is allele 0 -/
 theorem ref_is_allele_zero (ref : Seq) (alts : List Seq) :
     ∀ v ∈ deriveVariants ref alts,
-      v.2.head? = some (charAt ref v.1) ∧ alleleIndex v.2 (charAt ref v.1) = 0 := by
+      v.2.head? = some (charAt ref v.1) ∧ allelicIndex v.2 (charAt ref v.1) = 0 := by
   intro v hv
   obtain ⟨j, _, rfl⟩ := List.mem_map.mp hv
   constructor
@@ -80,7 +80,7 @@ theorem alleles_nodup (ref : Seq) (alts : List Seq) :
 theorem encodeHaplotypes_eq {ref : Seq} {alts : List Seq} (h : ∀ a ∈ alts, a.length = ref.length) :
     encodeHaplotypes { sequence := ref, variants := deriveVariants ref alts, alts := alts }
       = some ((ref :: alts).map (fun s =>
-          (deriveVariants ref alts).map (fun v => alleleIndex v.2 (charAt s v.1)))) := by
+          (deriveVariants ref alts).map (fun v => allelicIndex v.2 (charAt s v.1)))) := by
   unfold encodeHaplotypes encodeWith
   have : ((ref :: alts).all fun s => (deriveVariants ref alts).all fun v => decide (v.1 < s.length)) = true := by
     simp only [List.all_eq_true, decide_eq_true_eq]
@@ -144,7 +144,7 @@ theorem format_encode (ref : Seq) (alts : List Seq) (h : ∀ a ∈ alts, a.lengt
     · rfl
     · exact h s hs'
   have hvc : variantChars gap ((deriveVariants ref alts).map (·.2))
-      ((deriveVariants ref alts).map (fun v => alleleIndex v.2 (charAt s v.1)))
+      ((deriveVariants ref alts).map (fun v => allelicIndex v.2 (charAt s v.1)))
       = some ((deriveVariants ref alts).map (fun v => charAt s v.1)) := by
     apply variantChars_map
     intro v hv
